@@ -4,22 +4,42 @@
   decoder of the detected mode over THE SAME bufio reader (so from byte 0 — the
   classification only peeked), and reading that decoder to its end.
 
-  The four direct entry points are given as functions of the bytes the reader
-  delivers: the binary ones (`NewDecryptStream`, `NewSigncryptOpenStream`) are the
-  packet-level receivers behind `Wire.split…`; the armored ones
-  (`NewDearmor62DecryptStream`, `NewDearmor62SigncryptOpenStream`) dearmor with the
-  frame checks of an ENCRYPTED MESSAGE (`Armor.open62 (some mtEncryption)`) and
-  feed the payload to the same receivers.  For armored input only the
+  The decoder reads the reader to its END: it meets every byte the reader still
+  delivers and then the reader's FINAL CONDITION (`End`): a clean `io.EOF`, or an
+  error of the underlying source.  go-codec's stream reader does not swallow a
+  read error (`decReadFull` defers only `io.EOF`), so where the bytes end the
+  typed read that would have met `io.EOF` fails with a decode error carrying the
+  reader's error (`withEnd`: a clean tail becomes `Tail.err .decodeError`; a tail
+  that already is an error — malformed input before the end — stays).  The audit's
+  run: a complete 6242-byte message followed by a read error: 6000 bytes
+  released, then `msgpack decode error [pos 6242]: boom`.
+
+  The binary decoders (`NewDecryptStream`, `NewSigncryptOpenStream`) are the
+  byte-level receivers of `Model/Front.lean`: `Front.readEnc` / `readSigncrypt`
+  (what the typed reads make of the bytes) followed by `Decrypt.openStream` /
+  `Signcrypt.openStream`; with a clean end they ARE `Decrypt.openBytes` /
+  `Signcrypt.openBytes` (`Proofs/Dispatch.lean`).  The armored ones
+  (`NewDearmor62DecryptStream`, `NewDearmor62SigncryptOpenStream`) dearmor with
+  the frame checks of an ENCRYPTED MESSAGE (`Armor.open62 (some mtEncryption)`)
+  and feed the payload to the same receivers.  For armored input only the
   distinction ok / error and, on success, the result are meant to agree with the
   implementation (see `Armor.openPure`): a streamed armored message that fails
-  late may already have released plaintext.
+  late may already have released plaintext; an armored stream whose source ends
+  in an error is an armor-layer failure (the armor decoder reads to the end of
+  its source looking for trailing garbage).
+
+  `dispatchM` runs on an arbitrary initial state of the bufio machine:
+  `bufio.NewReader(source)` is a fresh 4096-byte reader over `source`
+  (`dispatchSrc`) — EXCEPT when `source` already is a `*bufio.Reader` whose
+  buffer is at least 4096 bytes: then `NewReader` returns `source` itself, with
+  its size (so `Peek(stream.Size())` peeks more), its buffered bytes and its
+  stored condition; that case is `dispatchM` on that reader's state.
+  (A `*bufio.Reader` with a smaller buffer is wrapped like any `io.Reader`.)
 
   Core Lean only.
 -/
 import Saltpack.Model.Bufio
-import Saltpack.Model.Wire
-import Saltpack.Model.Decrypt
-import Saltpack.Model.Signcrypt
+import Saltpack.Model.Front
 
 namespace Saltpack.Dispatch
 open Saltpack Saltpack.Classify
@@ -36,29 +56,62 @@ inductive Out where
   | unmodelled (why : String)
   deriving Repr
 
-/-- `NewDecryptStream(CheckKnownMajorVersion, r, keyring)` read to its end, `r` delivering `msg` -/
-def decryptStream (kr : Keyring) (msg : Bytes) : Out :=
-  match Wire.splitEnc msg with
-  | .unmodelled w => .unmodelled w
-  | .ok (hr, ps) => .enc (Decrypt.openStream P knownMajor kr hr ps)
+/-- the condition the reader ends with, as a decoder meets it -/
+inductive End where
+  | eof                                      -- io.EOF
+  | err                                      -- an error of the underlying source (or of bufio: ErrNoProgress)
+  deriving Repr, DecidableEq
+
+def End.of : Bufio.BErr → End
+  | .src .eof => .eof
+  | _ => .err
+
+/-- the packet stream the typed reads yield when the bytes are followed by `e`:
+    the read that would have met `io.EOF` meets the reader's error instead -/
+def withEnd {β : Type} (e : End) (ps : PStream β) : PStream β :=
+  match e, ps.tail with
+  | .err, .eof => { ps with tail := .err .decodeError }
+  | _, _ => ps
+
+/-- a byte-level receiver's answer as an outcome -/
+def outEnc : Except String Decrypt.Result → Out
+  | .ok r => .enc r
+  | .error w => .unmodelled w
+
+def outSc : Except String Signcrypt.Result → Out
+  | .ok r => .sc r
+  | .error w => .unmodelled w
+
+/-- `NewDecryptStream(CheckKnownMajorVersion, r, keyring)` read to its end, `r`
+    delivering `msg` and then `e` -/
+def decryptStream (kr : Keyring) (msg : Bytes) (e : End) : Out :=
+  match Front.readEnc msg with
+  | .error w => .unmodelled w
+  | .ok (hr, ps) => .enc (Decrypt.openStream P knownMajor kr hr (withEnd e ps))
 
 /-- `NewSigncryptOpenStream(r, keyring, resolver)` read to its end -/
-def signcryptOpenStream (kr : Keyring) (res : Signcrypt.Resolver) (msg : Bytes) : Out :=
-  match Wire.splitSigncrypt msg with
-  | .unmodelled w => .unmodelled w
-  | .ok (hr, ps) => .sc (Signcrypt.openStream P kr res hr ps)
+def signcryptOpenStream (kr : Keyring) (res : Signcrypt.Resolver) (msg : Bytes) (e : End) : Out :=
+  match Front.readSigncrypt msg with
+  | .error w => .unmodelled w
+  | .ok (hr, ps) => .sc (Signcrypt.openStream P kr res hr (withEnd e ps))
 
 /-- `NewDearmor62DecryptStream(CheckKnownMajorVersion, r, keyring)` read to its end -/
-def dearmor62DecryptStream (kr : Keyring) (text : Bytes) : Out :=
-  match Armor.open62 (some mtEncryption) text with
-  | .error e => .armorFail e
-  | .ok o => decryptStream P kr o.payload
+def dearmor62DecryptStream (kr : Keyring) (text : Bytes) (e : End) : Out :=
+  match e with
+  | .err => .armorFail .ioError
+  | .eof =>
+    match Armor.open62 (some mtEncryption) text with
+    | .error er => .armorFail er
+    | .ok o => decryptStream P kr o.payload .eof
 
 /-- `NewDearmor62SigncryptOpenStream(r, keyring, resolver)` read to its end -/
-def dearmor62SigncryptOpenStream (kr : Keyring) (res : Signcrypt.Resolver) (text : Bytes) : Out :=
-  match Armor.open62 (some mtEncryption) text with
-  | .error e => .armorFail e
-  | .ok o => signcryptOpenStream P kr res o.payload
+def dearmor62SigncryptOpenStream (kr : Keyring) (res : Signcrypt.Resolver) (text : Bytes) (e : End) : Out :=
+  match e with
+  | .err => .armorFail .ioError
+  | .eof =>
+    match Armor.open62 (some mtEncryption) text with
+    | .error er => .armorFail er
+    | .ok o => signcryptOpenStream P kr res o.payload .eof
 
 /-- what the dispatcher reports: the classification it returns next to the
     decoder (`isArmored`, `msgType`, version) and the decoder's outcome -/
@@ -72,9 +125,10 @@ structure Result where
 def refuse (e : Err) : Result := ⟨false, Gen.c_sp_MessageTypeUnknown, ⟨0, 0⟩, .fail e⟩
 
 /-- the `switch msgType` of `ClassifyEncryptedStreamAndMakeDecoder`, given the
-    verdict of `ClassifyStream` and the bytes `all` the reader delivers from
-    byte 0 -/
-def build (kr : Keyring) (res : Signcrypt.Resolver) (v : Verdict (Bool × Bytes × Int × Version)) (all : Bytes) : Result :=
+    verdict of `ClassifyStream`, the bytes `all` the reader delivers from byte 0
+    and the condition `e` it ends with -/
+def build (kr : Keyring) (res : Signcrypt.Resolver) (v : Verdict (Bool × Bytes × Int × Version)) (all : Bytes)
+    (e : End) : Result :=
   match v with
   | .short => refuse .shortSliceOrBuffer
   | .eof => refuse .notASaltpackMessage
@@ -82,28 +136,40 @@ def build (kr : Keyring) (res : Signcrypt.Resolver) (v : Verdict (Bool × Bytes 
   | .unmodelled w => ⟨false, Gen.c_sp_MessageTypeUnknown, ⟨0, 0⟩, .unmodelled w⟩
   | .ok (arm, _brand, t, ver) =>
     if t = mtEncryption then
-      ⟨arm, t, ver, if arm then dearmor62DecryptStream P kr all else decryptStream P kr all⟩
+      ⟨arm, t, ver, if arm then dearmor62DecryptStream P kr all e else decryptStream P kr all e⟩
     else if t = mtSigncryption then
-      ⟨arm, t, ver, if arm then dearmor62SigncryptOpenStream P kr res all else signcryptOpenStream P kr res all⟩
+      ⟨arm, t, ver, if arm then dearmor62SigncryptOpenStream P kr res all e else signcryptOpenStream P kr res all e⟩
     else refuse .wrongMessageType
+
+/-- the dispatcher as a function of what the reader delivers: the bytes `all`
+    and the final condition `e`, classified through a buffer of `size` bytes -/
+def dispatchEnd (kr : Keyring) (res : Signcrypt.Resolver) (size : Nat) (all : Bytes) (e : End) : Result :=
+  build P kr res (classifyStream size all) all e
 
 /-- `ClassifyEncryptedStreamAndMakeDecoder` on a source that delivers `all` and
     then a clean EOF (in any fragmentation): `bufio.NewReader` has 4096 bytes -/
 def dispatch (kr : Keyring) (res : Signcrypt.Resolver) (all : Bytes) : Result :=
-  build P kr res (classifyStream Bufio.defaultBufSize all) all
+  dispatchEnd P kr res Bufio.defaultBufSize all .eof
 
-/-- the same on the bufio machine over a scripted source: classify on
-    `bufio.NewReader(source)`, then hand THAT reader to the decoder, which reads
-    it to its end (here: drained with reads of `cap` bytes; what the decoder sees
-    is what the drain delivers).  A reader error during classification makes the
-    dispatcher answer "not a saltpack message". -/
-def dispatchM (kr : Keyring) (res : Signcrypt.Resolver) (cap fuel : Nat) (src : Stream.Source) : Result :=
-  let (v, s1) := Bufio.classifyStreamM (Bufio.newReader src)
+/-- the dispatcher on the bufio machine in state `s0` (= the `stream` of the Go
+    code): classify, then hand THAT reader to the decoder, which reads it to its
+    end — every byte the drain delivers (reads of `cap` bytes) and the condition
+    it ends with.  A reader error during classification makes the dispatcher
+    answer "not a saltpack message". -/
+def dispatchM (kr : Keyring) (res : Signcrypt.Resolver) (cap fuel : Nat) (s0 : Bufio.BState) : Result :=
+  let (v, s1) := Bufio.classifyStreamM s0
   match v with
   | .fail _ => refuse .notASaltpackMessage
   | .v verdict =>
-    let (all, _, _) := Bufio.drain cap fuel s1 []
-    build P kr res verdict all
+    let (all, fin, _) := Bufio.drain cap fuel s1 []
+    match fin with
+    | none => ⟨false, Gen.c_sp_MessageTypeUnknown, ⟨0, 0⟩, .unmodelled "drain: out of fuel"⟩
+    | some c => build P kr res verdict all (End.of c)
+
+/-- `ClassifyEncryptedStreamAndMakeDecoder(source, …)` for a `source` that is not
+    itself a large-enough `*bufio.Reader`: `bufio.NewReader(source)` -/
+def dispatchSrc (kr : Keyring) (res : Signcrypt.Resolver) (cap fuel : Nat) (src : Stream.Source) : Result :=
+  dispatchM P kr res cap fuel (Bufio.newReader src)
 
 end
 end Saltpack.Dispatch
